@@ -258,7 +258,7 @@ def run_harness(binary, lines, timeout=600, mem_gb=4, env_extra=None):
         inp = "\n".join(pending) + "\n"
         try:
             p = subprocess.run("ulimit -v %d; exec %s" % (mem_gb * 1024 * 1024, binary), shell=True, input=inp,
-                               stdout=subprocess.PIPE, stderr=subprocess.DEVNULL, timeout=timeout, text=True, env=env)
+                               stdout=subprocess.PIPE, stderr=subprocess.PIPE, timeout=timeout, text=True, env=env, errors="replace")
             outl = p.stdout.splitlines()
         except subprocess.TimeoutExpired as e:
             outl = (e.stdout or b"").decode(errors="replace").splitlines() if isinstance(e.stdout, bytes) else (e.stdout or "").splitlines()
@@ -275,7 +275,12 @@ def run_harness(binary, lines, timeout=600, mem_gb=4, env_extra=None):
         if got >= len(pending):
             break
         dead = pending[got].split(" ", 1)[0]
-        obs[dead] = "ABORT" if p is not None else "TIMEOUT"
+        if p is None:
+            obs[dead] = "TIMEOUT"
+        else:
+            tail = (p.stderr or "")[-4000:]
+            # an allocation failure aborts the process (handle_alloc_error); anything else is a crash
+            obs[dead] = "ABORT oom" if "memory allocation of" in tail else "ABORT rc=%s %s" % (p.returncode, tail.strip().splitlines()[-1][:80].replace(" ", "_") if tail.strip() else "")
         pending = pending[got + 1:]
     return obs
 
